@@ -371,3 +371,72 @@ package ledger
 //@   property C31
 //@   modifies c
 //@   ensures len(c.atCommit) == 0 && published == old(published) && c.hasTx == old(c.hasTx)
+
+// ---- assumed contracts of the Controller interface, as used by internal/api/bulking (C32) ---------------
+// Ghost counters of controller-level transaction calls and of write calls with their parameters.
+
+//@ ghost nCtrlBegin int
+//@ ghost nCtrlRollback int
+//@ ghost lastTxCtrl Controller
+//@ ghost ctrlWrites int
+//@ ghost lastWriteCtrl Controller
+//@ ghost lastIK string
+//@ ghost lastSchemaVersion string
+//@ ghost lastDryRun bool
+
+//@ assumed func (c Controller) BeginTX(ctx context.Context, options *sql.TxOptions) (r Controller, tx *bun.Tx, err error)
+//@   modifies nCtrlBegin, lastTxCtrl
+//@   ensures err == nil ==> r != nil && nCtrlBegin == old(nCtrlBegin) + 1 && lastTxCtrl == r
+//@   ensures err != nil ==> nCtrlBegin == old(nCtrlBegin) && lastTxCtrl == old(lastTxCtrl)
+
+//@ assumed func (c Controller) Rollback(ctx context.Context) (err error)
+//@   modifies nCtrlRollback
+//@   ensures nCtrlRollback == old(nCtrlRollback) + 1
+
+//@ assumed func (c Controller) CreateTransaction(ctx context.Context, parameters Parameters[CreateTransaction]) (log *ledger.Log, ret *ledger.CreatedTransaction, hit bool, err error)
+//@   modifies ctrlWrites, lastWriteCtrl, lastIK, lastSchemaVersion, lastDryRun
+//@   ensures ctrlWrites == old(ctrlWrites) + 1 && lastWriteCtrl == c && lastIK == parameters.IdempotencyKey && lastSchemaVersion == parameters.SchemaVersion && lastDryRun == parameters.DryRun
+//@   ensures err == nil ==> log != nil && log.ID != nil && ret != nil
+
+//@ assumed func (c Controller) RevertTransaction(ctx context.Context, parameters Parameters[RevertTransaction]) (log *ledger.Log, ret *ledger.RevertedTransaction, hit bool, err error)
+//@   modifies ctrlWrites, lastWriteCtrl, lastIK, lastSchemaVersion, lastDryRun
+//@   ensures ctrlWrites == old(ctrlWrites) + 1 && lastWriteCtrl == c && lastIK == parameters.IdempotencyKey && lastSchemaVersion == parameters.SchemaVersion && lastDryRun == parameters.DryRun
+//@   ensures err == nil ==> log != nil && log.ID != nil && ret != nil
+
+//@ assumed func (c Controller) SaveTransactionMetadata(ctx context.Context, parameters Parameters[SaveTransactionMetadata]) (log *ledger.Log, hit bool, err error)
+//@   modifies ctrlWrites, lastWriteCtrl, lastIK, lastSchemaVersion, lastDryRun
+//@   ensures ctrlWrites == old(ctrlWrites) + 1 && lastWriteCtrl == c && lastIK == parameters.IdempotencyKey && lastSchemaVersion == parameters.SchemaVersion && lastDryRun == parameters.DryRun
+//@   ensures err == nil ==> log != nil && log.ID != nil
+
+//@ assumed func (c Controller) SaveAccountMetadata(ctx context.Context, parameters Parameters[SaveAccountMetadata]) (log *ledger.Log, hit bool, err error)
+//@   modifies ctrlWrites, lastWriteCtrl, lastIK, lastSchemaVersion, lastDryRun
+//@   ensures ctrlWrites == old(ctrlWrites) + 1 && lastWriteCtrl == c && lastIK == parameters.IdempotencyKey && lastSchemaVersion == parameters.SchemaVersion && lastDryRun == parameters.DryRun
+//@   ensures err == nil ==> log != nil && log.ID != nil
+
+//@ assumed func (c Controller) DeleteTransactionMetadata(ctx context.Context, parameters Parameters[DeleteTransactionMetadata]) (log *ledger.Log, hit bool, err error)
+//@   modifies ctrlWrites, lastWriteCtrl, lastIK, lastSchemaVersion, lastDryRun
+//@   ensures ctrlWrites == old(ctrlWrites) + 1 && lastWriteCtrl == c && lastIK == parameters.IdempotencyKey && lastSchemaVersion == parameters.SchemaVersion && lastDryRun == parameters.DryRun
+//@   ensures err == nil ==> log != nil && log.ID != nil
+
+//@ assumed func (c Controller) DeleteAccountMetadata(ctx context.Context, parameters Parameters[DeleteAccountMetadata]) (log *ledger.Log, hit bool, err error)
+//@   modifies ctrlWrites, lastWriteCtrl, lastIK, lastSchemaVersion, lastDryRun
+//@   ensures ctrlWrites == old(ctrlWrites) + 1 && lastWriteCtrl == c && lastIK == parameters.IdempotencyKey && lastSchemaVersion == parameters.SchemaVersion && lastDryRun == parameters.DryRun
+//@   ensures err == nil ==> log != nil && log.ID != nil
+
+//@ assumed func (c Controller) InsertSchema(ctx context.Context, parameters Parameters[InsertSchema]) (log *ledger.Log, ret *ledger.InsertedSchema, hit bool, err error)
+//@   modifies ctrlWrites, lastWriteCtrl, lastIK, lastSchemaVersion, lastDryRun
+//@   ensures ctrlWrites == old(ctrlWrites) + 1 && lastWriteCtrl == c && lastIK == parameters.IdempotencyKey && lastSchemaVersion == parameters.SchemaVersion && lastDryRun == parameters.DryRun
+//@   ensures err == nil ==> log != nil && log.ID != nil && ret != nil
+
+// ---- numscript.go (C25, C27, C38): building the script of a postings request never panics ---------------
+
+//@ func TxToScriptData(txData ledger.TransactionData, allowUnboundedOverdrafts bool) (r RunScript)
+//@   property C25 C27 C38
+//@   ensures r.Timestamp == txData.Timestamp && r.Reference == txData.Reference && r.Metadata != nil
+//@   loop 1:
+//@     index k
+//@     invariant accountsToVars != nil && monetaryToVars != nil
+//@     invariant forall q int :: {txData.Postings[q]} 0 <= q && q < k ==> (txData.Postings[q].Source == "world" || has(accountsToVars, txData.Postings[q].Source)) && (txData.Postings[q].Destination == "world" || has(accountsToVars, txData.Postings[q].Destination)) && has(monetaryToVars, sprintf("[%s %s]", bigstr(txData.Postings[q].Amount), txData.Postings[q].Asset))
+//@   loop 6:
+//@     index k
+//@     mention txData.Postings[k]
